@@ -16,25 +16,29 @@ FILES = {
     "b.py": ("file.b", True, "script"),
     "scripts/s1.py": ("scripts.s1", True, "script"),
     "scripts/sub/s2.py": ("scripts.sub.s2", True, "script"),
-    "apps/app2.py": ("apps.app2", True, "app2"),  # single-file app, always configured (apps: {app2: {}})
+    "apps/app12.py": ("apps.app12", True, "app2"),  # single-file app, always configured; its name has the app package's name as a prefix
     "apps/app1/__init__.py": ("apps.app1", True, "app"),
     "apps/app1/helper.py": ("apps.app1.helper", False, "appmod"),
     "modules/m1.py": ("modules.m1", False, "module"),
+    "modules/m12.py": ("modules.m12", False, "module"),  # name has m1 as a prefix
+    "modules/m3.py": ("modules.m3", False, "module"),  # leaf below the join of the diamond a -> m1 / m12 -> pkg -> m3
     "modules/pkg/__init__.py": ("modules.pkg", False, "module"),
     "modules/pkg/sub.py": ("modules.pkg.sub", False, "module"),
 }
 CTX2PATH = {v[0]: k for k, v in FILES.items()}
 # possible import statements per file: (statement text, imported context names)
 IMPORTS = {
-    "a.py": [("import m1", ["modules.m1"]), ("import pkg", ["modules.pkg"]), ("from m1 import mval", ["modules.m1"])],
-    "b.py": [("import pkg", ["modules.pkg"]), ("import m1", ["modules.m1"])],
+    "a.py": [("import m1", ["modules.m1"]), ("import pkg", ["modules.pkg"]), ("from m1 import mval", ["modules.m1"]), ("import m12", ["modules.m12"])],
+    "b.py": [("import pkg", ["modules.pkg"]), ("import m1", ["modules.m1"]), ("import m12", ["modules.m12"])],
     "scripts/s1.py": [("import m1", ["modules.m1"])],
     "scripts/sub/s2.py": [("import m1", ["modules.m1"])],
-    "apps/app2.py": [("import m1", ["modules.m1"]), ("import pkg", ["modules.pkg"])],
+    "apps/app12.py": [("import m1", ["modules.m1"]), ("import pkg", ["modules.pkg"])],
     "apps/app1/__init__.py": [("from . import helper", ["apps.app1.helper"]), ("import m1", ["modules.m1"])],
     "apps/app1/helper.py": [("import pkg", ["modules.pkg"])],
     "modules/m1.py": [("import pkg", ["modules.pkg"])],
-    "modules/pkg/__init__.py": [("from . import sub", ["modules.pkg.sub"])],
+    "modules/m12.py": [("import pkg", ["modules.pkg"]), ("import m3", ["modules.m3"])],
+    "modules/m3.py": [],
+    "modules/pkg/__init__.py": [("from . import sub", ["modules.pkg.sub"]), ("import m3", ["modules.m3"])],
     "modules/pkg/sub.py": [("import m1", ["modules.m1"])],
 }
 
@@ -213,7 +217,7 @@ def gen(R):
         elif k == "appconf":
             ops.append({"op": "appconf", "conf": R.choice([None, {"x": 1}, {"x": 2}])})
         elif k == "reload":
-            ops.append({"op": "reload", "which": R.weighted([(6, None), (1, "*"), (1, "file.a"), (1, "modules.m1"), (1, "apps.app1"), (1, "modules.pkg"), (1, "apps.app2"), (1, "scripts.sub.s2")])})
+            ops.append({"op": "reload", "which": R.weighted([(6, None), (1, "*"), (1, "file.a"), (1, "modules.m1"), (1, "apps.app1"), (1, "modules.pkg"), (1, "apps.app12"), (1, "scripts.sub.s2"), (1, "modules.m3"), (1, "modules.m12")])})
         else:
             ops.append({"op": "bump"})
     ops.append({"op": "reload", "which": None})
@@ -235,7 +239,7 @@ async def execute(case, variant=False):
     files = {}
     for p, f in case["initial"].items():
         files[p] = source(p, f["gen"], f["imports"])
-    cfg = {"apps": dict({"app2": {}}, **({"app1": case["app_conf"]} if case["app_conf"] is not None else {}))}
+    cfg = {"apps": dict({"app12": {}}, **({"app1": case["app_conf"]} if case["app_conf"] is not None else {}))}
     it = l3.Integ({}, legacy=case["legacy"], config_extra=cfg)
     # write initial files with explicit mtimes before set-up
     orig_write = it.write_files
@@ -309,7 +313,7 @@ async def execute(case, variant=False):
                     m.files[p]["commented"] = k == "comment"
             elif k == "appconf":
                 m.app_conf = op["conf"]
-                it.config["pyscript"]["apps"] = dict({"app2": {}}, **({"app1": op["conf"]} if op["conf"] is not None else {}))
+                it.config["pyscript"]["apps"] = dict({"app12": {}}, **({"app1": op["conf"]} if op["conf"] is not None else {}))
             elif k == "bump":
                 it.fire("bump", {})
                 await it.settle(1)
@@ -328,7 +332,7 @@ async def execute(case, variant=False):
 class C10(ModelCheck):
     prop = PROP
     rule = (
-        "file trees over pyscript/a.py, b.py, scripts/s1.py, scripts/sub/s2.py, apps/app2.py (single-file app), apps/app1/__init__.py + helper.py, modules/m1.py, "
+        "file trees over pyscript/a.py, b.py, scripts/s1.py, scripts/sub/s2.py, apps/app12.py (single-file app whose name has the app package's name as a prefix), modules m12 (prefix m1) and m3 (leaf below a diamond), apps/app1/__init__.py + helper.py, modules/m1.py, "
         "modules/pkg/__init__.py + sub.py (each present or not) with generated import edges (import m, from m import x, "
         "relative import inside packages; modules importing modules) and optional app configuration, followed by 2-10 "
         "steps of modify / touch (mtime only) / create / delete / rename with '#' / add-remove-change app config / fire a "
